@@ -3,6 +3,7 @@ package main
 import (
 	"container/heap"
 	"fmt"
+	"os"
 	"sync"
 	"time"
 	"go/token"
@@ -157,6 +158,15 @@ func (st *State) decide(c *Term) bool {
 		f := st.feasible(Not(c))
 		switch {
 		case t && f:
+			if forkStats != nil {
+				site := "?"
+				if n := len(st.stack); n > 0 {
+					site = st.stack[n-1]
+				}
+				forkMu.Lock()
+				forkStats[site]++
+				forkMu.Unlock()
+			}
 			alt := append(append([]bool{}, st.taken...), false)
 			st.e.mu.Lock()
 			st.e.pushWork(alt)
@@ -1216,4 +1226,13 @@ func isOrbPkg(path string) bool {
 		}
 	}
 	return true
+}
+
+var forkStats map[string]int
+var forkMu sync.Mutex
+
+func init() {
+	if os.Getenv("GOSX_FORKS") != "" {
+		forkStats = map[string]int{}
+	}
 }
